@@ -139,9 +139,9 @@ inline void execImpl(World& w, const Opn& op, Outcome& o) {
         case OP_SETATTRNODENS: o.ret = ((DOMElement*)T)->setAttributeNodeNS((DOMAttr*)A); o.hasRet = true; break;
         case OP_APPENDDATA: ((DOMCharacterData*)T)->appendData(xs(DATASTR, s1)); break;
         case OP_INSERTDATA: ((DOMCharacterData*)T)->insertData(op.v, xs(DATASTR, s1)); break;
-        case OP_DELETEDATA: ((DOMCharacterData*)T)->deleteData(op.v, countChoice(op.w, (int)RT.data.size())); break;
-        case OP_REPLACEDATA: ((DOMCharacterData*)T)->replaceData(op.v, countChoice(op.w, (int)RT.data.size()), xs(DATASTR, s1)); break;
-        case OP_SUBSTRING: o.str = esc16(((DOMCharacterData*)T)->substringData(op.v, countChoice(op.w, (int)RT.data.size()))); break;
+        case OP_DELETEDATA: ((DOMCharacterData*)T)->deleteData(op.v, (XMLSize_t)op.w); break;
+        case OP_REPLACEDATA: ((DOMCharacterData*)T)->replaceData(op.v, (XMLSize_t)op.w, xs(DATASTR, s1)); break;
+        case OP_SUBSTRING: o.str = esc16(((DOMCharacterData*)T)->substringData(op.v, (XMLSize_t)op.w)); break;
         case OP_SPLIT: o.ret = ((DOMText*)T)->splitText(op.v); o.hasRet = true; break;
         case OP_RWT: o.ret = ((DOMText*)T)->replaceWholeText(xs(V_RWT[op.v], s1)); o.hasRet = true; break;
         }
@@ -172,7 +172,13 @@ struct Cmp {
     World& w;
     std::string slug, detail;
     Cmp(World& w_) : w(w_) {}
-    bool fail(const std::string& s, const std::string& d) { if (slug.empty()) { slug = s; detail = d; } return false; }
+    bool fail(const std::string& s, const std::string& d) {
+        if (!slug.empty()) return false;
+        static const char* const structural[] = {"firstChild", "lastChild", "children", "childNodes", "previousSibling", "nextSibling", "parentNode", "hasChildNodes", "node-missing"};
+        slug = s; detail = d;
+        for (const char* t : structural) if (s == t) slug = "structure";
+        return false;
+    }
     std::string nm(int id) const {
         if (id < 0) return "null";
         const RNode& r = w.ref.d.n[id];
@@ -400,6 +406,47 @@ inline bool invariants(World& w, std::string& slug, std::string& detail) {
         if (owned != (asAttr.count(p) != 0)) return bad("attr-owned-flag", "#" + std::to_string(i) + " OWNED flag disagrees with map membership");
     }
     return true;
+}
+
+// ------------------------------------------------------------------ quick signature
+// 64-bit digest of everything the canonical key contains (public getters + hidden fields), computed in node-table order without
+// building strings; only used to decide "did a call that raised an exception leave this very world unchanged" (same table, so
+// no canonical renaming is needed).
+struct Sig {
+    uint64_t h = 1469598103934665603ULL;
+    void u(uint64_t v) { h ^= v; h *= 1099511628211ULL; h ^= h >> 29; }
+    void str(const XMLCh* s) { if (!s) { u(0xFFFF1); return; } for (; *s; s++) u(*s); u(0xFFFF2); }
+};
+inline uint64_t quickSig(World& w) {
+    Sig g;
+    const RDom& d = w.ref.d;
+    auto id = [&](const DOMNode* p) -> uint64_t { return p ? (uint64_t)(w.idOf(p) + 3) : 0; };
+    for (size_t i = 0; i < d.n.size() && i < w.h.size(); i++) {
+        DOMNode* p = w.h[i];
+        if (!p || !d.n[i].live) continue;
+        g.u(i); g.u(p->getNodeType());
+        g.str(p->getNodeName()); g.str(p->getNamespaceURI()); g.str(p->getPrefix()); g.str(p->getLocalName()); g.str(p->getNodeValue());
+        g.u(id(p->getParentNode())); g.u(id(p->getFirstChild())); g.u(id(p->getLastChild())); g.u(id(p->getPreviousSibling())); g.u(id(p->getNextSibling()));
+        g.u(id(p->getOwnerDocument()));
+        { int n = 0; for (DOMNode* k = p->getFirstChild(); k && n < WALK_MAX; k = k->getNextSibling(), n++) g.u(id(k)); g.u(n); }
+        g.u(p->getUserData(w.uKey) ? 1 : 0);
+        DOMNodeImpl* ni = nodeImpl(p);
+        g.u(ni->flags); g.u(id(ni->fOwnerNode));
+        if (DOMChildNode* ci = childImpl(p)) { g.u(id(ci->previousSibling)); g.u(id(ci->nextSibling)); }
+        if (DOMParentNode* pi = parentImpl(p)) { g.u(id(pi->fFirstChild)); g.u(id(pi->fOwnerDocument)); }
+        int t = d.n[i].type;
+        if (t == EL) {
+            DOMElementImpl* ei = dynamic_cast<DOMElementImpl*>(p);
+            DOMAttrMapImpl* m = ei->fAttributes;
+            XMLSize_t len = m ? m->getLength() : 0;
+            g.u(len);
+            for (XMLSize_t j = 0; j < len; j++) g.u(id(m->item(j)));
+            g.u(m && m->hasDefaults() ? 1 : 0);
+            g.u(ei->fDefaultAttributes ? ei->fDefaultAttributes->getLength() + 1 : 0);
+        } else if (t == ATTR) { g.u(id(((DOMAttr*)p)->getOwnerElement())); g.u(((DOMAttr*)p)->getSpecified() ? 1 : 0); }
+        else if (t == DOC) { DOMDocumentImpl* di = dynamic_cast<DOMDocumentImpl*>(p); g.u(id(di->fDocElement)); g.u(id(di->fDocType)); }
+    }
+    return g.h;
 }
 
 // ------------------------------------------------------------------ canonical key
